@@ -675,7 +675,7 @@ class C14:
 
 # ---------------------------------------------------------------------- C19
 HOSTILE = ["..", ".", "", "../..", "a/../../b", "../../../../../../../../../../..", "/abs", "x/../..", "..\\..",
-           "a/../../../b", "./..", "..//..", "/", "//abs2", "sub/../../esc",
+           "a/../../../b", "./..", "..//..", "/", "//abs2", "//abs3/in", "///abs4", "sub/../../esc",
            # climb out and come back down into a sibling whose name merely STARTS like the destination ("dest")
            "../dest2", "../../dest2", "../../dest-old/in", "../dest.bak", "../../../lvl2/dest2", "x/../../dest_"]
 
@@ -731,6 +731,9 @@ class C19:
 
         def fixabs(c):
             # absolute components are re-rooted inside the sandbox so that even an unblocked write stays there
+            if c.startswith("//") and not c.startswith("///"):
+                # exactly two leading slashes survive normpath on POSIX and still name the root directory
+                return "/" + sandbox + "/" + c.lstrip("/")
             if c.startswith("//"):
                 return sandbox + "/" + c.lstrip("/")
             if c.startswith("/") and c != "/":
